@@ -94,11 +94,14 @@ Theorem C16_detect_full :
 Proof. exact detect_full_frame. Qed.
 Print Assumptions C16_detect_full.
 
-(* Concurrent senders on one connection.  For EVERY schedule [es] of the transition system of
-   Model/CodecSend.v (Send = lock; codec.Write in any number of conn.Write calls, frame number
-   taken under the lock; unlock), any number of senders and payloads: whenever the mutex is
-   free the receiver reads exactly the payloads of the completed Sends, whole, in lock order,
-   and each sender's payloads in its own program order (the log is an interleaving). *)
+(* Concurrent senders on one connection.  Transition system of Model/CodecSend.v: Send = lock;
+   codec.Write in any number of conn.Write calls, frame number taken under the lock; unlock.  A
+   conn.Write may also FAIL after any number of bytes (write deadline taken from ctx, closed
+   connection): Send then returns the error and unlocks, leaving a torn frame on the wire.
+   For EVERY schedule [es], any number of senders and payloads:
+   (a) as long as no conn.Write has failed ([intact st = None]), whenever the mutex is free the
+       receiver reads exactly the payloads of the Sends, whole, in lock order, and each sender's
+       payloads in its own program order (the log is an interleaving); *)
 Theorem C16_senders :
   forall (crc : bytes -> Z) (c : codec) (rnd : Z -> bytes) (split : bytes -> list bytes)
          (q0 : nat -> list bytes) (seq0 : Z) (es : list event) (st : state) (fuel : nat),
@@ -106,12 +109,53 @@ Theorem C16_senders :
     (forall i, length (rnd i) = 4%nat) ->
     (forall f, concat (split f) = f) ->
     (forall i p, In p (q0 i) -> frame_ok c p) ->
-    run crc c rnd split (init q0 seq0) es = Some st -> holder st = None ->
+    run crc c rnd split (init q0 seq0) es = Some st -> holder st = None -> intact st = None ->
     (length (log st) < fuel)%nat ->
     read_stream crc c seq0 fuel (stream st) = (map snd (log st), StopErr EEof) /\
     (forall i, sent_by i (log st) ++ queue st i = q0 i).
 Proof. intros; eapply senders_delivered; eassumption. Qed.
 Print Assumptions C16_senders.
+
+(* (b) once a conn.Write has failed while frame number n of the log was being written, the n
+       frames before it are still read first, whole and in lock order; nothing is claimed about
+       what the receiver reads after them (the torn frame desynchronises every codec: the
+       connection is dead, which is how the callers treat a Send error). *)
+Theorem C16_senders_until_failure :
+  forall (crc : bytes -> Z) (c : codec) (rnd : Z -> bytes) (split : bytes -> list bytes)
+         (q0 : nat -> list bytes) (seq0 : Z) (es : list event) (st : state) (n fuel : nat),
+    (forall x, 0 <= crc x < 2 ^ 32) ->
+    (forall i, length (rnd i) = 4%nat) ->
+    (forall f, concat (split f) = f) ->
+    (forall i p, In p (q0 i) -> frame_ok c p) ->
+    run crc c rnd split (init q0 seq0) es = Some st -> intact st = Some n ->
+    exists tail,
+      read_stream crc c seq0 (n + fuel) (stream st) =
+      (firstn n (map snd (log st)) ++ fst (read_stream crc c (seq0 + Z.of_nat n) fuel tail),
+       snd (read_stream crc c (seq0 + Z.of_nat n) fuel tail)).
+Proof. intros; eapply senders_until_failure; eassumption. Qed.
+Print Assumptions C16_senders_until_failure.
+
+(* "With or without headers": a listener created with an explicit codec (ListenCodec) reads the
+   protocol tag with Codec.ReadHeader -- it accepts exactly the codec's own tag and then hands
+   the codec the stream after it (C16_stream applies to that stream). *)
+Theorem C16_header :
+  forall (c : codec) (s : bytes), read_header c (header c ++ s) = Ok s.
+Proof. exact read_header_ok. Qed.
+Print Assumptions C16_header.
+Theorem C16_header_mismatch :
+  forall (c : codec) (h s : bytes),
+    c <> Full -> length h = length (header c) -> h <> header c -> read_header c (h ++ s) = Err EHeader.
+Proof. exact read_header_mismatch. Qed.
+Print Assumptions C16_header_mismatch.
+
+(* The alignment precondition of C16_detect_full is necessary: Full.Write has no checkAlign, and
+   the frame of a 227-byte payload starts with 0xef (length 239), which detectCodec takes for
+   the abridged tag.  Payloads of the property (and of MTProto) are multiples of 4. *)
+Theorem C16_detect_full_needs_alignment :
+  exists f, write_c (fun _ => 0) Full 0 [] (repeat 0 227) = Ok f /\
+            exists s, detect f = Ok (Abridged, s).
+Proof. exact detect_full_unaligned. Qed.
+Print Assumptions C16_detect_full_needs_alignment.
 
 (* ---- non-vacuity: the hypothesis sets are satisfiable ---- *)
 Example C16_crc_exists : exists crc : bytes -> Z, forall x, 0 <= crc x < 2 ^ 32.
@@ -131,4 +175,12 @@ Example C16_senders_run :
                  (init q0 0) [Acquire 1; WriteChunk 1; WriteChunk 1; Release 1;
                               Acquire 0; WriteChunk 0; WriteChunk 0; Release 0] = Some st
              /\ holder st = None /\ map fst (log st) = [1%nat; 0%nat].
+Proof. eexists; split; [vm_compute; reflexivity|split; reflexivity]. Qed.
+(* ... and one in which sender 1's second conn.Write fails after 2 bytes: frame 0 is torn *)
+Example C16_senders_failure_run :
+  let q0 := fun i => match i with 0%nat => [[1;2;3;4;5;6;7;8]] | 1%nat => [[9;9;9;9;9;9;9;9]] | _ => [] end in
+  exists st, run (fun _ => 0) Intermediate (fun _ => [0;0;0;0]) (fun f => [firstn 4 f; skipn 4 f])
+                 (init q0 0) [Acquire 1; WriteChunk 1; WriteFail 1 2;
+                              Acquire 0; WriteChunk 0; WriteChunk 0; Release 0] = Some st
+             /\ intact st = Some 0%nat /\ holder st = None.
 Proof. eexists; split; [vm_compute; reflexivity|split; reflexivity]. Qed.
